@@ -23,20 +23,21 @@ def get_usages(object):
     map = Map()
     done = set()
 
-    def _recurse(x):
+    def _recurse(x, is_usage=True):
         if isinstance(x, str | int | float | np.integer | np.floating | bool) or x is None:
             return
+        # Count every usage of x, but visit what x depends on only once
+        map.id_to_usagenum[id(x)] += 1 if is_usage else 0
         if id(x) in done:
             return
         done.add(id(x))
 
-        map.id_to_usagenum[id(x)] += 1
         if isinstance(x, tracer.Tracer):
             if x.origin is not None:
                 for input in x.origin.inputs:
                     _recurse(input)
                 for output in pytree.flatten(x.origin.output):
-                    _recurse(output)
+                    _recurse(output, is_usage=False)
         elif isinstance(x, list | tuple):
             for input in x:
                 _recurse(input)
